@@ -1,7 +1,7 @@
 #!/bin/bash
 # usage: tools/run_all.sh [tier]  -- run every claimed check (2 at a time), print exit codes
 tier=${1:-quick}
-cd /verif
+cd "$(dirname "$0")/.."
 ids=$(python3 -c "import json; print(' '.join(c['property_id'] for c in json.load(open('MANIFEST.json'))['checks']))")
 mkdir -p /tmp/runall
 run() { ./check $1 --tier $tier > /tmp/runall/$1.log 2>&1; echo "$1 exit=$? $(tail -1 /tmp/runall/$1.log | grep -oE 'wall [0-9]+s')"; }
